@@ -226,7 +226,9 @@ c.init_ghost = lambda S_: S_.I.st.ghost.setdefault("config_types", {}).update({"
 c.result = NONE
 c.host_ops_exc_base = "Exception"
 c.modifies = lambda S_: [("all",)]
-c.protects = lambda S_: {"fields": ["config", "grpc", "timer", "_tracepoint_config", "channel"], "lists": [], "dicts": []}
+# (not `_tracepoint_config`: the heap is indexed by field name, and the configuration service's own field of that name is
+# exactly what update_new_config replaces)
+c.protects = lambda S_: {"fields": ["config", "grpc", "timer", "channel"], "lists": [], "dicts": []}
 # a failed or unintelligible poll raises (the timer loop logs it and polls again) ...
 c.sig("Exception", "poll-failed")
 c.sig("IllegalStateException", "update-refused-because-the-agent-is-shutting-down")
@@ -260,13 +262,18 @@ def _poll_log(S_, kind):
         resp = polls[0].result
         h = S_.new
         NOCH = Val.VInt(z3.Int("ResponseType_NO_CHANGE"))
+        from pyvc.contract import Heap
+        # the answer as it was when it was used (the heap at the time of the state-changing call), not after it
         if nochg:
+            h = Heap(None, nochg[0].pre) if getattr(nochg[0], "pre", None) is not None else h
             out.append(("no-change-answer", "LOG", And(h.f(resp, "response_type") == NOCH, nochg[0].args[1] == h.f(resp, "ts_nanos")), None))
         if upd and conv:
+            hu = Heap(None, upd[0].pre) if getattr(upd[0], "pre", None) is not None else h
+            hc = Heap(None, conv[0].pre) if getattr(conv[0], "pre", None) is not None else h
             out.append(("update-installs-the-converted-response-under-its-hash", "LOG", And(
-                h.f(resp, "response_type") != NOCH, upd[0].args[1] == h.f(resp, "ts_nanos"),
-                upd[0].args[2] == h.f(resp, "current_hash"), upd[0].args[3] == conv[0].result,
-                conv[0].args[0] == h.f(resp, "response")), None))
+                hc.f(resp, "response_type") != NOCH, upd[0].args[1] == hc.f(resp, "ts_nanos"),
+                upd[0].args[2] == hc.f(resp, "current_hash"), upd[0].args[3] == conv[0].result,
+                conv[0].args[0] == hc.f(resp, "response")), None))
     return out
 
 
